@@ -388,7 +388,7 @@ func c11Units(base C11Arg, shards int) []explore.Unit {
 func init() {
 	explore.Register(&explore.CheckDef{
 		ID: "C11", Level: "model_checking",
-		Rule: "replica B (replication concurrency 1, 2 and default) replicates a remote chain or fork through a scripted sequence of Sync requests (1-2 cancellable ones, then a final uncancelled request for the same or newer heads); every block fetch and the replicator's schedule points (before slot, after dequeue, before done, before load-complete; hooks H2) are gated; the explorer enumerates all executions with a bounded number of deviations from the canonical schedule, where a deviation is: cancelling a request's context at that step, issuing the next request early, failing a parked fetch, or releasing another parked goroutine first. Every execution runs to quiescence after the final request; oracle: all entries reachable from the final heads are in the log and listed. Non-trivial = executions with at least one deviation.",
+		Rule: "replica B (replication concurrency 1, 2 and default) replicates a remote chain or fork through a scripted sequence of Sync requests (1-2 cancellable ones, then a final uncancelled request for the same or newer heads); every block fetch and the replicator's schedule points (before slot, after dequeue, before done, before load-complete; hooks H2) are gated; the explorer enumerates all executions with a bounded number of deviations from the canonical schedule, where a deviation is: cancelling a request's context at that step, issuing the next request early, failing a parked fetch, or releasing another parked goroutine first. Every execution runs to quiescence after the final request; oracle: all entries reachable from the final heads are in the log and listed. Load variant: a reopened replica with a persisted log (one or two cached heads) runs Load(ctx1) with every block read gated, ctx1 may be cancelled at any step, then an uncancelled Load; both calls must have returned and every persisted entry must be listed. Non-trivial = executions with at least one deviation.",
 		Units: func(tier string) []explore.Unit {
 			var u []explore.Unit
 			b := 2
@@ -400,6 +400,7 @@ func init() {
 				u = append(u, c11Units(C11Arg{Shape: "chain3", Conc: conc, Reqs: 3, Fails: 1, Bound: b}, 16)...)
 				u = append(u, c11Units(C11Arg{Shape: "fork", Conc: conc, Reqs: 3, Fails: 1, Bound: b}, 16)...)
 			}
+			u = append(u, c11LoadUnits(b+1)...)
 			if tier == "thorough" {
 				u = append(u, c11Units(C11Arg{Shape: "chain4", Conc: 1, Reqs: 3, Fails: 2, Bound: 3}, 32)...)
 				u = append(u, c11Units(C11Arg{Shape: "chain4", Conc: 2, Reqs: 3, Fails: 2, Bound: 3}, 32)...)
@@ -413,6 +414,10 @@ func init() {
 			return 200
 		},
 		RunUnit: func(c *explore.Ctx) {
+			if strings.HasPrefix(c.Spec.Unit.Arg, "L") {
+				runC11Load(c, c.Spec.Unit.Arg[1:])
+				return
+			}
 			var a C11Arg
 			if err := json.Unmarshal([]byte(c.Spec.Unit.Arg), &a); err != nil {
 				c.Stats.HarnessErrs = append(c.Stats.HarnessErrs, err.Error())
